@@ -40,6 +40,7 @@ def dispatch (prop : String) (c obs : String) : String × String × Bool :=
   | "C15retry" => C15.runRetry c obs
   | "C09" => C09.run c obs
   | "C10" => C09.run10 c obs
+  | "C17red" => C09.run10 c obs
   | "C18" => C18.run c obs
   | "C08" => C08.run c obs
   | "C01" => C01.run c obs
